@@ -603,6 +603,13 @@ def locate(fn, loc):
                         if loc[1] in names:
                             hits.append(h)
         return ast.copy_location(ast.Constant(len(hits) >= 1), fn)
+    if kind == "has_stmt":
+        # ("has_stmt", statement source): does the function contain (anywhere, nested blocks included, nested functions
+        # excluded) a statement whose `ast.unparse` text is exactly this?  -> a boolean constant (e.g. `self._loop_thread = None`)
+        want = ast.unparse(ast.parse(loc[1]).body[0])
+        inner = {id(x) for n in ast.walk(fn) if n is not fn and isinstance(n, (ast.FunctionDef, ast.AsyncFunctionDef, ast.Lambda)) for x in ast.walk(n)}
+        hit = any(isinstance(n, ast.stmt) and id(n) not in inner and ast.unparse(n) == want for n in ast.walk(fn))
+        return ast.copy_location(ast.Constant(value=bool(hit)), fn)
     if kind == "has_identity_test":
         # ("has_identity_test",): does the function compare objects with `is` / `is not` (other than against None)?
         hits = [n for n in ast.walk(fn) if isinstance(n, ast.Compare) and any(isinstance(o, (ast.Is, ast.IsNot)) for o in n.ops)
